@@ -80,6 +80,21 @@ def switches_on(view, pred):
     return out
 
 
+def pull_switches(view, site):
+    """[(switch bb, Some arm, None arm)] for the tests of the Option produced by the call at `site`: a direct match / `if let` /
+    `while let` on it, or `?` (the Continue arm of Try::branch is the Some arm, the Break arm returns None)"""
+    out = []
+    for sbi, st, d in switches_on(view, lambda d: d[0] == "discr" and d[1][0] == "call"):
+        x = d[1]
+        if x[3] == site:
+            some, none = opt_arms(st)
+            out.append((sbi, some, none))
+        elif isinstance(x[1], str) and core.callee_base(x[1]) == "core::ops::Try::branch" and x[2] and x[2][0][0] == "call" and x[2][0][3] == site:
+            brk, cont = opt_arms(st)          # discriminant 1 = Break, 0 = Continue
+            out.append((sbi, cont, brk))
+    return out
+
+
 def accessor_inline(lib, t, adts):
     """inline crate-local accessor methods of the given ADTs (e.g. Output::length -> .length)"""
     def which(key):
@@ -138,10 +153,25 @@ def analyse_next(ctx, v, kind, body):
             rv = st["rv"]
             if rv["k"] == "aggregate" and rv.get("akind") == "adt" and rv["adt"] == "Match":
                 info.reports.append((vw, bi, si, pnorm(vw.T.rvalue(rv))))
-            if st["lhs"]["local"] == 0 and not st["lhs"]["proj"] and rv["k"] == "aggregate" \
-                    and rv.get("adt") == OPTION and rv.get("variant") == "None" and vw is fv.root:
+            if not st["lhs"]["proj"] and rv["k"] == "aggregate" \
+                    and rv.get("adt") == OPTION and rv.get("variant") == "None" and vw is fv.root and _flows_to_return(vw.body, st["lhs"]["local"]):
                 info.nones.append((vw, bi, si))
     return info
+
+
+def _flows_to_return(b, local, depth=0):
+    """the local is the return place, or is handed to it through plain moves (the result of an inlined helper travels through a
+    temporary)"""
+    if local == 0:
+        return True
+    if depth > 4:
+        return False
+    for bi, si, st in b.stmts():
+        if st["k"] == "assign" and not st["lhs"]["proj"] and st["rv"]["k"] == "use" and st["rv"]["op"]["k"] in ("move", "copy") and \
+                not st["rv"]["op"]["place"]["proj"] and st["rv"]["op"]["place"]["local"] == local:
+            if _flows_to_return(b, st["lhs"]["local"], depth + 1):
+                return True
+    return False
 
 
 # ----------------------------------------------------------------------------- SAFE-IDX / Allowed
@@ -835,12 +865,11 @@ def _iter_standard_one(ctx, roles, v, kind, info, rules):
     _, pbi, _ = src_pulls[0]
     psite = (b.path, pbi)
     # the switch on the pull's discriminant
-    sws = switches_on(root, lambda d: d[0] == "discr" and d[1][0] == "call" and d[1][3] == psite)
+    sws = pull_switches(root, psite)
     if len(sws) != 1:
         ctx.bad("LAZY-PULL", b, "pull-switch:" + tag, b.loc(pbi), "pull result must be matched exactly once")
         return
-    sbi, st, _ = sws[0]
-    some_arm, none_arm = opt_arms(st)
+    sbi, some_arm, none_arm = sws[0]
     if want("LAZY-NOBUF"):
         bad = [c.key for vw, bi, c, tj in info.fv.calls()
                if core.callee_base(c.key).startswith("core::iter::") and c.name in
@@ -1022,7 +1051,10 @@ def _iter_standard_one(ctx, roles, v, kind, info, rules):
                       "`None` may be returned only when the source is exhausted (None arm of the pull)")
         # and the None arm must not report
         nr = b.reachable_from(none_arm)
-        ctx.check(not any(bi in nr for bi, _, _ in scan_reports + chain_reports) and len(info.nones) >= 1,
+        # (`None` as a literal, or built by `?` on the exhausted pull: FromResidual::from_residual into the return place)
+        resid = [bi for vw, bi, c, tj in info.fv.calls(lambda c: core.callee_base(c.key) == "core::ops::FromResidual::from_residual")
+                 if vw is root and tj.get("dest") is not None and tj["dest"]["local"] == 0 and not tj["dest"]["proj"] and bi in nr]
+        ctx.check(not any(bi in nr for bi, _, _ in scan_reports + chain_reports) and (len(info.nones) >= 1 or bool(resid)),
                   "ITER-EXHAUST", b, "end-returns-none:" + tag, b.loc(sbi), "end of input must return None")
 
 
@@ -1210,12 +1242,11 @@ def _iter_leftmost_one(ctx, roles, v, info, rules):
                     dict(rng[3])["start"][3] == "pos"
             ctx.check(shape, "ITER-LM", b, "suffix-from-pos:" + tag, b.loc(pbi),
                       "the scan must decode haystack[self.pos..]; found %s" % show(recv))
-    sws = switches_on(root, lambda d: d[0] == "discr" and d[1][0] == "call" and d[1][3] == psite)
+    sws = pull_switches(root, psite)
     if len(sws) != 1:
         ctx.bad("ITER-LM", b, "pull-switch:" + tag, b.loc(pbi), "pull result must be matched exactly once")
         return
-    sbi, st, _ = sws[0]
-    some_arm, none_arm = opt_arms(st)
+    sbi, some_arm, none_arm = sws[0]
     # label
     if want("ITER-LABEL"):
         if v.tag == "bw" and recv[1] == "<indexed>":
